@@ -30,7 +30,7 @@ def registry():
                 reg[name] = obj
     for name in ("TableCost", "TableSaving", "TableChangeScore", "TableLocalAnomalyScore", "L1Cost", "TrendPenalisedL2Cost", "MemoisingAbsCost", "WeightedCUSUM",
                  "FixedChangeDetector", "IndexLabelChangeDetector", "FunctionChangeScore", "FunctionLocalAnomalyScore",
-                 "SecondMomentChangeScore", "SecondMomentLocalScore", "DirectLocalMeanScore", "ProfileChangeScore", "WelchChangeScore"):
+                 "SecondMomentChangeScore", "SecondMomentLocalScore", "DirectLocalMeanScore", "ProfileChangeScore", "WelchChangeScore", "ModalL1Cost", "SeriesScaledLocalScore"):
         reg[name] = getattr(U, name)
     return reg
 
@@ -145,7 +145,7 @@ def scorer_min_size(spec, p):
         return 1
     cls = spec["cls"]
     if cls in ("L2Cost", "CUSUM", "L2Saving", "L1Cost", "TrendPenalisedL2Cost", "MemoisingAbsCost", "WeightedCUSUM",
-               "SecondMomentChangeScore", "SecondMomentLocalScore"):
+               "SecondMomentChangeScore", "SecondMomentLocalScore", "ModalL1Cost", "SeriesScaledLocalScore"):
         return 1
     if cls == "GaussianVarCost":
         return 2
@@ -177,11 +177,11 @@ def score_magnitude(spec, X, length, default="CUSUM"):
     while isinstance(inner, dict) and ("cost" in inner or "baseline_cost" in inner):
         inner = inner.get("cost", inner.get("baseline_cost"))
     cls = default if inner is None else inner["cls"]
-    if cls.startswith(("Gaussian", "Table", "Function", "Profile", "Welch")):
+    if cls.startswith(("Gaussian", "Table", "Function", "Profile", "Welch", "SeriesScaled")):
         return 1.0 + (length if cls.startswith("Gaussian") else 0.0)
     if cls in ("CUSUM", "WeightedCUSUM"):
         return p * (length ** 0.5) * M * (max(abs(float(w)) for w in inner.get("weights", [1.0])) if isinstance(inner, dict) else 1.0)
-    if cls == "L1Cost":
+    if cls in ("L1Cost", "ModalL1Cost"):
         return p * length * M * float(inner.get("scale", 1.0))
     if cls.startswith("SecondMoment"):
         # (the reference evaluates the very same user code on the same data; 1e-3 keeps the comparison meaningful for data on
